@@ -126,14 +126,28 @@ TagTips(srv, o) == IF o.tags = "all" /\ srv.tag.kind # "none" THEN {srv.tag.at} 
 
 TagVal(srv) == IF srv.tag.kind = "ann" THEN <<"tag", srv.tag.at>> ELSE <<"commit", srv.tag.at>>
 
+\* The references a fetch asks for, with the value they get.
+Wanted(srv, o) == {<<OA, <<"commit", srv.a>>>>}
+                  \cup (IF o.refspec = "all" /\ srv.b # 0 THEN {<<OB, <<"commit", srv.b>>>>} ELSE {})
+                  \cup (IF o.tags = "all" /\ srv.tag.kind # "none" THEN {<<TT, TagVal(srv)>>} ELSE {})
+
+\* Tips a depth is counted from: git only sends wants for the references whose local value
+\* differs from the remote one (transport_fetch_refs), and all of them if none differs.
+DepthTips(srv, cl, o) ==
+  LET w == Wanted(srv, o)
+      ch == {p \in w : cl.refs[p[1]] # p[2]}
+  IN {p[2][2] : p \in (IF ch = {} THEN w ELSE ch)}
+
 FetchPost(P, srv, cl, o) ==
   LET tips == HeadTips(srv, o) \cup TagTips(srv, o)
+      dtips == DepthTips(srv, cl, o)
       commits2 == IF o.depth = 0 THEN cl.commits \cup AncCut(P, tips, cl.shallow)
-                  ELSE cl.commits \cup Within(P, tips, o.depth - 1)
+                  ELSE cl.commits \cup Within(P, dtips, o.depth - 1)
       \* commits strictly inside the requested depth: a client-shallow commit among them is unshallowed
-      interior == IF o.depth <= 1 THEN {} ELSE Within(P, tips, o.depth - 2)
+      interior == IF o.depth <= 1 THEN {} ELSE Within(P, dtips, o.depth - 2)
+      \* shallow' = (old \ unshallowed) \cup new boundary
       shallow2 == IF o.depth = 0 THEN cl.shallow
-                  ELSE (cl.shallow \ interior) \cup (Within(P, tips, o.depth - 1) \ interior)
+                  ELSE (cl.shallow \ interior) \cup (Within(P, dtips, o.depth - 1) \ interior)
       followed == /\ srv.tag.kind # "none"
                   /\ \/ o.tags = "all"
                      \/ o.tags = "follow" /\ srv.tag.at \in commits2
